@@ -5,6 +5,7 @@ automaton `WellFormed`, `IsLongestValidPrefix`, rule classification `firstViolat
 -/
 import SuccinctlyVerif.Proof.Utf8ScalarMain
 import SuccinctlyVerif.Proof.Utf8Avx2
+import SuccinctlyVerif.Proof.Utf8BroadwordMain
 import SuccinctlyVerif.Proof.Utf8Codec
 namespace SV.Props.C13
 open SV SV.Utf8
@@ -42,16 +43,22 @@ theorem simd_engine_agrees (b : List Byte) : validateSimd b = validateScalar b :
   · rw [if_pos h]; exact ((scalar_ok_iff b).2 ((avx2_accept_iff b).1 h)).symm
   · rw [if_neg h]
 
-/-- Partial engine agreement: the broadword engine returns the scalar validator's result whenever
-its accept scan rejects, and `Ok` otherwise.  MISSING (not proved): `bwAccepts b = true ↔
-WellFormed b`, i.e. that the broadword accept scan never accepts ill-formed input; it is checked by
-the correspondence run only (every request cross-checks `bwAccepts` against `wellFormed`). -/
-theorem broadword_engine_agrees_partial (b : List Byte) (h : bwAccepts b = true ↔ WellFormed b) :
-    validateBroadword b = validateScalar b := by
+/-- The broadword accept scan (`load_block` / `load_word` ASCII skips, `first_high_byte`,
+`validate_sequence`) accepts exactly well-formed UTF-8. -/
+theorem broadword_accept_iff (b : List Byte) : bwAccepts b = true ↔ WellFormed b := bwAccepts_iff b
+
+/-- `validate_utf8_broadword` returns exactly the scalar validator's result. -/
+theorem broadword_engine_agrees (b : List Byte) : validateBroadword b = validateScalar b := by
   unfold validateBroadword
   by_cases hb : bwAccepts b = true
-  · rw [if_pos hb]; exact ((scalar_ok_iff b).2 (h.1 hb)).symm
+  · rw [if_pos hb]; exact ((scalar_ok_iff b).2 ((broadword_accept_iff b).1 hb)).symm
   · rw [if_neg hb]
+
+/-- All three engines (AVX2/dispatcher, broadword, scalar) return the same `Result` — same accept
+set and, on rejection, the same `Utf8Error` — for every byte string. -/
+theorem engines_agree (b : List Byte) :
+    validateSimd b = validateScalar b ∧ validateBroadword b = validateScalar b :=
+  ⟨simd_engine_agrees b, broadword_engine_agrees b⟩
 
 example : bwAccepts [0x41#8, 0xC3#8, 0xA9#8] = true := by decide
 
